@@ -116,11 +116,13 @@ fn wrong_for_function(func_code: u8, pick: u8) -> Option<Vec<u8>> {
             2 => ra::h_all(60, 2),
             _ => ra::h_prefixed8(12, 1, &crob_objs(1)),
         },
-        func::SELECT | func::OPERATE | func::DIRECT_OPERATE | func::DIRECT_OPERATE_NR => match pick % 3 {
-            0 => ra::h_range8(1, 2, 0, 0, &[0x01]),
-            1 => ra::h_all(60, 1),
-            _ => ra::h_count8(50, 1, 1, &ra::u48(5)),
-        },
+        func::SELECT | func::OPERATE | func::DIRECT_OPERATE | func::DIRECT_OPERATE_NR => {
+            match pick % 3 {
+                0 => ra::h_range8(1, 2, 0, 0, &[0x01]),
+                1 => ra::h_all(60, 1),
+                _ => ra::h_count8(50, 1, 1, &ra::u48(5)),
+            }
+        }
         func::IMMED_FREEZE
         | func::FREEZE_CLEAR
         | func::FREEZE_AT_TIME
